@@ -85,6 +85,33 @@ def read_seq(node):
     return [(w, ren.get(l, l)) for w, l in seq]
 
 
+def pattern_renames(pat):
+    """{bound local: field} for a struct pattern `T::V { field: local, .. }` (shorthand `{ field }` binds the field's own name)"""
+    ren = {}
+    for p in walk(pat):
+        if p[0] == "pstruct":
+            for f in p[2]:
+                q = f[1]
+                while is_node(q) and q[0] in ("pref", "ptype"):
+                    q = q[2] if q[0] == "pref" else q[1]
+                if is_node(q) and q[0] == "pident" and q[1] != f[0]:
+                    ren[q[1]] = f[0]
+    return ren
+
+
+def rename_labels(seq, ren):
+    if not ren:
+        return seq
+    out = []
+    for w, l in seq:
+        m = re.match(r"^len\((.*)\)$", l)
+        if m:
+            out.append((w, "len(%s)" % ren.get(m.group(1), m.group(1))))
+        else:
+            out.append((w, ren.get(l, l)))
+    return out
+
+
 def regions(it):
     """reader regions of a function: (description, node, variants built)"""
     out = [("%s" % it["name"], it["body"])]
@@ -145,7 +172,7 @@ def run_r7(F, rep, crate):
                 for a in arms:
                     mm = re.search(r"(\w+)::(\w+)", render_pat(a[0]))
                     if mm:
-                        writers["%s::%s" % (th, mm.group(2))] = (write_seq(a[2]), "%s::write_to arm %s" % (th, mm.group(2)))
+                        writers["%s::%s" % (th, mm.group(2))] = (rename_labels(write_seq(a[2]), pattern_renames(a[0])), "%s::write_to arm %s" % (th, mm.group(2)))
             else:
                 writers[th] = (write_seq(it["body"]), "%s::write_to" % th)
     readers = []
@@ -158,6 +185,7 @@ def run_r7(F, rep, crate):
                 if rs:
                     readers.append((desc, rs, built(node)))
     n_wr = n_ww = 0
+    paired = {}
     for key, (ws, where) in sorted(writers.items()):
         labels = {l for _, l in ws if l != "#" and not l.startswith("len(")}
         if not labels:
@@ -174,9 +202,34 @@ def run_r7(F, rep, crate):
                 cands.append((0 if key in bl else 1, -ov, len(rs), desc, rs))
         if cands:
             cands.sort(key=lambda c: c[:3])
-            _, ov, _, desc, rs = cands[0]
+            paired[key] = (cands[0][3], cands[0][4], False)
+    # a reader that binds the fields to bare locals and builds no struct (`let id = ..; let reg = ..; map.insert(id, reg)`) shares no
+    # name with the writer once the locals are renamed: pair a still unpaired struct writer with the only unclaimed loop region that
+    # reads as many items as the writer writes, and compare the widths position by position
+    claimed = {d for d, _, _ in paired.values()}
+    for key, (ws, where) in sorted(writers.items()):
+        if key in paired or "::" in key or len(ws) < 3 or not {l for _, l in ws if l != "#" and not l.startswith("len(")}:
+            continue
+        shaped = [(desc, rs) for desc, rs, bl in readers if ":loop" in desc and desc not in claimed and len(rs) == len(ws) and not bl]
+        if len(shaped) == 1:
+            paired[key] = (shaped[0][0], shaped[0][1], True)
+        elif len(shaped) > 1:
+            same = [(d, r) for d, r in shaped if [w for w, _ in r] == [w for w, _ in ws]]
+            if len(same) == 1:
+                paired[key] = (same[0][0], same[0][1], True)
+            else:
+                rep.note("C07-R7-undecided", {"writer": where, "why": "no reader shares a field name with it and %d loop regions read %d items" % (len(shaped), len(ws))})
+    for key, (ws, where) in sorted(writers.items()):
+        labels = {l for _, l in ws if l != "#" and not l.startswith("len(")}
+        if not labels:
+            continue
+        variant = key.split("::")[-1]
+        if key in paired:
+            desc, rs, by_shape = paired[key]
             n_wr += 1
             msg = compare(ws, rs)
+            if msg is None and by_shape and [w for w, _ in ws] != [w for w, _ in rs]:
+                msg = "widths %s vs %s" % ([w for w, _ in ws], [w for w, _ in rs])
             rep.check(msg is None, "C07-R7", "read:%s" % key,
                       "%s writes %s but its reader %s reads %s: %s - a file re-encoded by to_bytes (or loaded by the reader) no longer carries each operand in its own slot" % (
                           where, ws, desc, rs, msg), where, sample={"writer": where, "writes": ws, "reader": desc, "reads": rs})
@@ -373,6 +426,7 @@ def run_r9(F, rep, crate):
         if it["k"] not in ("method", "fn") or not it.get("body") or not (it.get("mod") or "").startswith("program"):
             continue
         seq = []
+        runs = 0
         for x in walk(it["body"]):
             if x[0] == "mcall":
                 m = re.match(r"^write_(u16|u32|u64)$", x[2])
@@ -394,7 +448,13 @@ def run_r9(F, rep, crate):
             n += 1
             ok = txt == norm_b + ".len" or txt == norm_b + ".len()" or txt.replace("()", "") == (norm_b + ".len")
             who = "%s::%s" % (it.get("self") or it.get("mod"), it["name"])
-            rep.check(ok, "C07-R9", "%s:prefix-of-%s" % (who, norm_b[:30]) if ok else "%s:prefix-of-%s:is-%s" % (who, norm_b[:20], re.sub(r"\W+", "-", txt)[:40]),
+            # the key names the byte run by the field path it is taken from (`self.x`, `e.bytes` of a loop over self) or, when it is a
+            # plain local, by its ordinal among the length-prefixed runs of the function: never by the spelling of a local
+            runs += 1
+            is_local = re.match(r"^[a-z_][A-Za-z0-9_]*$", norm_b) and norm_b != "self"
+            what = "run%d" % runs if is_local else re.sub(r"^[a-z_][A-Za-z0-9_]*\.", "item.", norm_b) if not norm_b.startswith("self") else norm_b
+            shown = re.sub(r"\W+", "-", txt.replace(norm_b, "B") if is_local else txt)
+            rep.check(ok, "C07-R9", "%s:prefix-of-%s" % (who, what[:30]) if ok else "%s:prefix-of-%s:is-%s" % (who, what[:20], shown[:40]),
                       "%s writes the length prefix `%s` in front of the bytes `%s`: the reader consumes that many BYTES, so any difference between the two (e.g. characters vs UTF-8 bytes) "
                       "truncates the value or runs into the next field" % (who, render(e1)[:50], render(e2)[:40]), "%s (%s)" % (who, crate), sample={"writer": who, "prefix": render(e1)[:50], "bytes": render(e2)[:40]})
     rep.floor("C07-R9", "length-prefixed byte runs", n, 3)
